@@ -4,7 +4,7 @@ import re, random, collections
 from vlib import parse_tla_value
 
 
-def parse_dot(path, keep_labels=False):
+def parse_dot(path, keep_labels=False, next_is_action=False):
     nodes = {}      # id -> label text
     init = []
     edges = collections.defaultdict(list)   # src -> [(dst, label)]
@@ -15,6 +15,10 @@ def parse_dot(path, keep_labels=False):
         for line in f:
             m = edge_re.match(line)
             if m:
+                if m.group(3) == "Next" and m.group(1) != m.group(2) and not next_is_action:
+                    # an action TLC could not name is invisible to the label->operation translation (vacuous replay)
+                    from vlib import Infra
+                    raise Infra("state graph %s has transitions labelled 'Next': wrap the action in a named operator" % path)
                 edges[m.group(1)].append((m.group(2), m.group(3)))
                 nedges += 1
                 continue
